@@ -354,6 +354,36 @@ fn nlri_of(v: &Val) -> Result<Nlri, BadCase> {
             },
         }),
         12 => Nlri::Evpn(evpn_of(l)?),
+        14 => Nlri::Mup(match l[1].int() {
+            1 => mup::MupNlri::InterworkSegmentDiscovery(mup::MupInterworkSegmentDiscoveryRoute {
+                rd: rd_of(&l[2])?,
+                prefix_len: l[3].u8(),
+                prefix_addr: ip_of(&l[4].bytes())?,
+            }),
+            2 => mup::MupNlri::DirectSegmentDiscovery(mup::MupDirectSegmentDiscoveryRoute {
+                rd: rd_of(&l[2])?,
+                address: ip_of(&l[3].bytes())?,
+            }),
+            3 => mup::MupNlri::Type1SessionTransformed(mup::MupType1SessionTransformedRoute {
+                rd: rd_of(&l[2])?,
+                prefix_len: l[3].u8(),
+                prefix_addr: ip_of(&l[4].bytes())?,
+                teid: l[5].u32(),
+                qfi: l[6].u8(),
+                endpoint_address: ip_of(&l[7].bytes())?,
+                source_address: match l[8].list().first() {
+                    Some(b) => Some(ip_of(&b.bytes())?),
+                    None => None,
+                },
+            }),
+            4 => mup::MupNlri::Type2SessionTransformed(mup::MupType2SessionTransformedRoute {
+                rd: rd_of(&l[2])?,
+                endpoint_address_length: l[3].u8(),
+                endpoint_address: ip_of(&l[4].bytes())?,
+                teid: l[5].u32(),
+            }),
+            _ => return Err(BadCase("mup route type")),
+        }),
         13 => Nlri::SrPolicy(sr_policy::SrPolicyNlri {
             distinguisher: l[1].u32(),
             color: l[2].u32(),
@@ -405,6 +435,31 @@ fn nlri_val(fam: Family, n: &Nlri) -> Val {
             }
         },
         Nlri::Evpn(x) => evpn_val(x),
+        Nlri::Mup(x) => match x {
+            mup::MupNlri::InterworkSegmentDiscovery(r) => {
+                Val::L(vec![Val::n(14u8), Val::n(1u8), rd_val(&r.rd), Val::n(r.prefix_len), ip_val(&r.prefix_addr)])
+            }
+            mup::MupNlri::DirectSegmentDiscovery(r) => Val::L(vec![Val::n(14u8), Val::n(2u8), rd_val(&r.rd), ip_val(&r.address)]),
+            mup::MupNlri::Type1SessionTransformed(r) => Val::L(vec![
+                Val::n(14u8),
+                Val::n(3u8),
+                rd_val(&r.rd),
+                Val::n(r.prefix_len),
+                ip_val(&r.prefix_addr),
+                Val::n(r.teid),
+                Val::n(r.qfi),
+                ip_val(&r.endpoint_address),
+                Val::opt(r.source_address.as_ref().map(ip_val)),
+            ]),
+            mup::MupNlri::Type2SessionTransformed(r) => Val::L(vec![
+                Val::n(14u8),
+                Val::n(4u8),
+                rd_val(&r.rd),
+                Val::n(r.endpoint_address_length),
+                ip_val(&r.endpoint_address),
+                Val::n(r.teid),
+            ]),
+        },
         Nlri::SrPolicy(x) => Val::L(vec![Val::n(13u8), Val::n(x.distinguisher), Val::n(x.color), ip_val(&x.endpoint)]),
         other => Val::L(vec![
             Val::n(9u8),
